@@ -16,6 +16,7 @@ A session is one endpoint plus a clock.  Request lines:
     tick | needs_tick
     dup                                   oracle-only marker: an address is about to get a second peer
     nextid <n>                            verification hook `Net::verif_set_next_peer_id` (counter of fresh ids)
+    sweep s|c <depth> <lo> <hi> | <op> ; <op> ; …      hash form: all sequences of `depth` calls over the alphabet
 
 `<pX>` is the canonical text of `Packet::read(bytes, hint X)` as in domain `conn6`; the driver never
 looks at the bytes.  Output of an op: `<ret> s=<addr>@<packet>,… e=<events> w=<warnings> nt=<needs_tick>`.
@@ -110,6 +111,45 @@ def stepLine (w : World) (toks : List String) : World × String :=
         | .error f => ({ w with dead := true }, failStr f)
         | .ok (net, r, o) => ({ w with net := net }, outLine net r o)
 
-def main : IO Unit := runLoop stepLine ({} : World)
+/-- split the alphabet of a `sweep` request at the `;` tokens -/
+def splitOps (toks : List String) : List (List String) :=
+  let (cur, acc) := toks.foldl
+    (fun (st : List String × List (List String)) t =>
+      if t == ";" then ([], st.1.reverse :: st.2) else (t :: st.1, st.2)) ([], [])
+  (cur.reverse :: acc).reverse
+
+/-- run sequence number `i` (digits base `k`, most significant first) from a fresh endpoint and fold
+its output lines into the hash -/
+def sweepOne (server : Bool) (ops : Array (List String)) (depth i : Nat) (h : UInt64) : UInt64 :=
+  let k := ops.size
+  let rec go (j : Nat) (w : World) (h : UInt64) : UInt64 :=
+    match j with
+    | 0 => h
+    | j + 1 =>
+      let d := (i / k ^ j) % k
+      let (w1, line) := stepLine w (ops[d]?.getD [])
+      go j w1 (fnvByte (fnvString h line) 10)
+  go depth { net := Net.new server } h
+
+def sweep (server : Bool) (ops : Array (List String)) (depth lo hi : Nat) : UInt64 :=
+  let rec go (n i : Nat) (h : UInt64) : UInt64 :=
+    match n with
+    | 0 => h
+    | n + 1 => go n (i + 1) (sweepOne server ops depth i h)
+  go (hi - lo) lo fnvOffset
+
+/-- `sweep s|c <depth> <lo> <hi> | <op> ; <op> ; …`: every sequence of `depth` calls over the given
+alphabet with index in `[lo, hi)`, each from a fresh endpoint; prints `h <fnv of all output lines>` -/
+def stepTop (w : World) (toks : List String) : World × String :=
+  match toks with
+  | "sweep" :: kind :: depth :: lo :: hi :: "|" :: rest =>
+    match depth.toNat?, lo.toNat?, hi.toNat? with
+    | some depth, some lo, some hi =>
+      let ops := (splitOps rest).toArray
+      if ops.size == 0 then (w, "bad-op") else (w, s!"h {sweep (kind == "s") ops depth lo hi}")
+    | _, _, _ => (w, "bad-op")
+  | _ => stepLine w toks
+
+def main : IO Unit := runLoop stepTop ({} : World)
 
 end Tw.Drv.Net
